@@ -210,7 +210,8 @@ def parse_tlc(text):
 # --------------------------------------------------------------------------
 def run_mc(ctx, st):
     consts = dict(st["consts"])
-    consts["Dev"] = set(st["dev"])
+    if "Dev" not in consts and "Groups" not in consts:
+        consts["Dev"] = set(st["dev"])
     name = "run_%s_%d.cfg" % (st["module"], ctx.nrun)
     ctx.write_cfg(name, cfg_text(consts, spec=st["spec"], invariants=st["invariants"],
                                  properties=st["properties"], extra=st["extra_cfg"]))
